@@ -662,6 +662,43 @@ def c13_q1(ctx):
                                     other = (zero[0] if zero else None) if (callee_name(c) or "").endswith("is_ok") else ty_["otherwise"]
                                     if edge is not None and edge != other and edge in dom.get(x, ()):
                                         okedge = True
+                        if not okedge and not s["place"]["proj"]:
+                            # built ahead of the operation and picked afterwards (`status_of(op(), Successful, Failed)`):
+                            # every way the constant travels on from here passes a move that lies on the Ok edge
+                            def ok_at(blk_):
+                                for y in blocks:
+                                    ty2 = f.blocks[y]["term"]
+                                    if ty2["k"] != "switch":
+                                        continue
+                                    c2 = eb.operand(ty2["discr"])
+                                    if c2[0] == "discr" and c2[1][0] == "call" and (callee_name(c2[1]) or "").endswith("FileStore::" + opname):
+                                        if any(v == 0 and tgt in dom.get(blk_, ()) for v, tgt in ty2["targets"]):
+                                            return True
+                                    if c2[0] == "discr" and c2[1][0] == "place":
+                                        # the result bound to a variable first
+                                        ds_ = [d_ for d_ in ExprBuilder(ctx.prog, f, user_stop=True).var_defs(c2[1][1])] if re.match(r"^\w+$", c2[1][1]) else []
+                                        if ds_ and all(d_[0] == "call" and (callee_name(d_) or "").endswith("FileStore::" + opname) for d_ in ds_):
+                                            if any(v == 0 and tgt in dom.get(blk_, ()) for v, tgt in ty2["targets"]):
+                                                return True
+                                return False
+
+                            def travels_ok(l_, depth_=0):
+                                from common import local_uses
+                                if depth_ > 6:
+                                    return False
+                                us = local_uses(f, l_)
+                                if not us:
+                                    return depth_ > 0
+                                for kind_, ub_, uj_, u_ in us:
+                                    if ok_at(ub_):
+                                        continue
+                                    if kind_ == "stmt" and u_["rv"]["k"] == "use" and not u_["place"]["proj"] and u_["place"]["local"] != 0:
+                                        if travels_ok(u_["place"]["local"], depth_ + 1):
+                                            continue
+                                    return False
+                                return True
+
+                            okedge = travels_ok(s["place"]["local"])
                         if not okedge:
                             problems.append("Successful is reported outside the Ok edge of %s" % opname)
                     e = eb.rvalue(rv)
